@@ -636,7 +636,7 @@ theorem plan_completeMultipartUpload (b k uid : Bytes) (parts : Option (List Int
           ∀ a, P e enc (.completeMultipartUpload b k uid (some ps) c) ⟨a, .path pp⟩ := by
         intro n hn pp hpp a
         exact L_name hr (good_uploadPartName hu n)
-          ⟨u, hpu, .inr (.inr (.inr (.inr ⟨n, by simpa using hn, rfl⟩)))⟩ hpp
+          ⟨u, hpu, .inr (.inr (.inr (.inr (.inr ⟨n, by simpa using hn, rfl⟩))))⟩ hpp
       have hchk := completeCheck_allowed e enc hr he u ps hparts 0 _ [] hp1 (by simp)
       cases hcc : completeCheck e u ps 0 (([] : List Touch) ++ [rd info]) [] with
       | error pl => exact hchk.1 pl hcc
@@ -646,7 +646,7 @@ theorem plan_completeMultipartUpload (b k uid : Bytes) (parts : Option (List Int
         simp only
         refine forall_withPath ht2 fun tmp htmp => ?_
         have h4 : ∀ acc, P e enc (.completeMultipartUpload b k uid (some ps) c) ⟨acc, .path tmp⟩ :=
-          fun _ => L_name hr (good_tmpName c) ⟨u, hpu, .inr (.inr (.inr (.inl rfl)))⟩ htmp
+          fun _ => L_name hr (good_tmpName c) ⟨u, hpu, .inr (.inr (.inr (.inr (.inl rfl))))⟩ htmp
         have hp3 : ∀ t ∈ t2 ++ [cr tmp, wr tmp] ++ pps.map rd ++
             [rm tmp, ⟨.create, .dirChain (parentPath p)⟩, cr p, wr p],
             P e enc (.completeMultipartUpload b k uid (some ps) c) t :=
@@ -661,13 +661,19 @@ theorem plan_completeMultipartUpload (b k uid : Bytes) (parts : Option (List Int
         refine forall_withPath hp4 fun m hm => ?_
         have h3 : ∀ acc, P e enc (.completeMultipartUpload b k uid (some ps) c) ⟨acc, .path m⟩ :=
           fun _ => L_name hr (good_metadataName he b k (by simp)) ⟨u, hpu, .inr (.inr (.inl rfl))⟩ hm
-        have hp5 := forall_append (forall_append hp4
-          (show ∀ t ∈ [cr m, wr m, rm um], P e enc (.completeMultipartUpload b k uid (some ps) c) t by
+        have hp5 := forall_append hp4
+          (show ∀ t ∈ [rd m, cr m, wr m, rm m, rm um], P e enc (.completeMultipartUpload b k uid (some ps) c) t by
+            touch_list <;> solve_by_elim)
+        refine forall_withPath hp5 fun i hi => ?_
+        have h7 : ∀ acc, P e enc (.completeMultipartUpload b k uid (some ps) c) ⟨acc, .path i⟩ :=
+          fun _ => L_name hr (good_internalInfoName he b k) ⟨u, hpu, .inr (.inr (.inr (.inl rfl)))⟩ hi
+        have hp6 := forall_append (forall_append hp5
+          (show ∀ t ∈ [cr i, wr i], P e enc (.completeMultipartUpload b k uid (some ps) c) t by
             touch_list <;> solve_by_elim)) (forall_map_path e enc hr he rm .delete (fun _ => rfl) hpps)
-        refine forall_withPath hp5 fun info' hinfo' => ?_
+        refine forall_withPath hp6 fun info' hinfo' => ?_
         have h1' : ∀ acc, P e enc (.completeMultipartUpload b k uid (some ps) c) ⟨acc, .path info'⟩ :=
           fun _ => L_name hr (good_uploadInfoName hu) ⟨u, hpu, .inl rfl⟩ hinfo'
-        exact forall_append hp5 (by touch_list <;> solve_by_elim)
+        exact forall_append hp6 (by touch_list <;> solve_by_elim)
 
 theorem plan_abortMultipartUpload (b k uid : Bytes) :
     ∀ t ∈ (plan e enc (.abortMultipartUpload b k uid)).touches, P e enc (.abortMultipartUpload b k uid) t := by
